@@ -621,6 +621,9 @@ def tasks(tier):
         out.append(("ops-%d" % k, task_ops, dict(n=4000, steps=10 + 4 * k)))
     for k in range(4):
         out.append(("mixture-%d" % k, task_mixture, dict(n=8000)))
+    # coverage-guided tier (pbt/fuzz.py): libFuzzer drives the strategies and oracles of these tasks
+    from .. import fuzz
+    fuzz.extend(out, PROPERTY, ['tree-0', 'ops-0', 'mixture-0'])
     return out
 
 
